@@ -73,6 +73,30 @@ def check(ctx, rep):
                                    'field %s : %s is an endpoint of a queue implementation outside the table %s: whether its backlog is dropped when the '
                                    'receiving side goes is not confirmed (async-channel, for one, keeps queued items until the last sender goes, '
                                    'and a queued task can own a sender of its own queue)' % (key_, ty_[:120], list(QUEUE_OK)))
+    # ---- R13.j: a finished command does not outlive its finishing inside a sequence: Command::then gives each of its two operands BY
+    # VALUE to the hosting call, so the first is consumed by the future that hosts it and dropped when that future completes — before the
+    # second is hosted (seeded: both bound as locals and fed to one sink by `&mut`: the finished first command, and whatever its spawn queue
+    # still holds, lives until the second ends)
+    from rules.props import prims as _prims
+    rep.rule('R13.j', 'Command::then hands each operand by value to the call that hosts it (a finished part is dropped before the next starts)', floor=1)
+    roots_ = [r for r in core.built if r.kind == 'AssocFn' and r.name == 'then' and path_matches(r.assoc.get('self_adt'), 'crux_core::command::Command')
+              and not r.assoc.get('trait')]
+    if len(roots_) != 1:
+        rep.missing('R13.j', 'Command::then')
+    else:
+        r_ = roots_[0]
+        by_value = set()
+        for g in [r_] + core.closures_of(r_):
+            for bb, t in g.calls(_c04.HOST):
+                a0 = t['args'][0]
+                if (a0.get('t') or '').lstrip().startswith('&') or a0.get('o') != 'move':
+                    continue
+                for h, o in _prims.trace_to_root(core, g, a0, r_):
+                    if h is r_ and o.kind == 'arg':
+                        by_value.add(o.n)
+        rep.expect('R13.j', by_value == {1, 2}, 'then|operands-consumed', 'self and other are each moved into the call that hosts them',
+                   'Command::then no longer moves both operands into the calls that host them (moved: parameters %s): a part that has finished stays '
+                   'alive inside the hosting task — with everything still queued in it — until the whole sequence ends' % sorted(by_value))
     # ---- R13.a
     f = c06.method(core, 'crux_core::capability::executor::QueuingExecutor', 'run_task')
     if f is None:
